@@ -15,14 +15,15 @@ import (
 )
 
 type Case struct {
-	G           *cfgm.G
-	Inputs      [][]int
-	Limits      []int // per input step bound; nil = default 2000+200*len
-	OnBounds    bool
-	NamedSlices bool
+	G            *cfgm.G
+	Inputs       [][]int
+	Limits       []int // per input step bound; nil = default 2000+200*len
+	OnBounds     bool
+	NamedSlices  bool
 	BoundsLayout int
-	LoxText     string // filled in
-	GoText      string // filled in
+	NilMask      uint64
+	LoxText      string // filled in
+	GoText       string // filled in
 }
 
 type Out struct {
@@ -63,7 +64,7 @@ func Run(cases []*Case, fast bool) ([]*Out, error) {
 	forge.FastLoader(fast)
 	for _, c := range cases {
 		c.LoxText = c.G.Lox()
-		c.GoText = pgo.UserGo(c.G, pgo.Opts{OnBounds: c.OnBounds, NamedSlices: c.NamedSlices, BoundsLayout: c.BoundsLayout})
+		c.GoText = pgo.UserGo(c.G, pgo.Opts{OnBounds: c.OnBounds, NamedSlices: c.NamedSlices, BoundsLayout: c.BoundsLayout, NilMask: c.NilMask})
 		files := c.G.LoxFiles()
 		files["user.go"] = c.GoText
 		if _, err := b.Add(files); err != nil {
